@@ -79,6 +79,13 @@ type relayWorldOpts struct {
 	// TxsAt, when non-nil, is asked for the transactions of every block the world runs (heights 4..StopAt):
 	// validator-set changes (stake, edit-stake) by real transactions; every one of them must succeed.
 	TxsAt func(w *relayWorld, height int64) []worldTx
+	// MinSignedPct, when non-zero, is the MinSignedPerWindow parameter in percent (100: a single missed vote jails).
+	MinSignedPct int64
+	// AbsentAt, when non-nil, names the validators that did not sign the previous block, as reported in the
+	// LastCommitInfo of block `height` (downtime jailing by the real BeginBlocker).
+	AbsentAt func(w *relayWorld, height int64) []crypto.PrivateKey
+	// DTAt, when non-nil, is the time step of block `height` (0: one second).
+	DTAt func(height int64) time.Duration
 }
 
 // worldTx is one signed transaction of a world block with its description.
@@ -93,6 +100,12 @@ func (w *relayWorld) stakeTx(name string, k crypto.PrivateKey, chains []string) 
 	msg := &nodesTypes.MsgStake{PublicKey: k.PublicKey(), Chains: append([]string{}, chains...), Value: sdk.NewInt(chain.StakeUnit),
 		ServiceUrl: "https://node.example:443", Output: chain.Addr(k)}
 	return worldTx{Desc: fmt.Sprintf("MsgStake{%s chains=%v}", name, chains), Bytes: chain.SignTx(w.spec.ChainID, msg, chain.DefaultFee, "", w.nextEntropy(), k)}
+}
+
+// unjailTx is a MsgUnjail of node key k signed by the node itself.
+func (w *relayWorld) unjailTx(name string, k crypto.PrivateKey) worldTx {
+	msg := &nodesTypes.MsgUnjail{ValidatorAddr: chain.Addr(k), Signer: chain.Addr(k)}
+	return worldTx{Desc: fmt.Sprintf("MsgUnjail{%s}", name), Bytes: chain.SignTx(w.spec.ChainID, msg, chain.DefaultFee, "", w.nextEntropy(), k)}
 }
 
 const relayBackendReply = `{"id":1,"jsonrpc":"2.0","result":"0x10d4f"}`
@@ -139,9 +152,26 @@ func newRelayWorldOpts(rt *rapid.T, o relayWorldOpts) *relayWorld {
 	s.NodeParams.MaxValidators = int64(kBoth + 4)
 	s.PocketParams.SessionNodeCount = w.snc
 	s.PocketParams.SupportedBlockchains = []string{"0001", "0021", "0003", "0040"}
+	if o.MinSignedPct != 0 {
+		s.NodeParams.MinSignedPerWindow = sdk.NewDecWithPrec(o.MinSignedPct, 2)
+	}
 	w.n = chain.NewNode(s)
 	for w.n.Height < stopAt {
 		b := chain.Block{DT: time.Second}
+		if o.DTAt != nil {
+			if dt := o.DTAt(w.n.Height + 1); dt != 0 {
+				b.DT = dt
+			}
+		}
+		if o.AbsentAt != nil {
+			for _, k := range o.AbsentAt(w, w.n.Height+1) {
+				if b.Absent == nil {
+					b.Absent = map[string]bool{}
+				}
+				b.Absent[hex.EncodeToString(chain.Addr(k))] = true
+				w.txLog = append(w.txLog, fmt.Sprintf("h%d:absent-vote{%s}", w.n.Height+1, chain.Addr(k).String()[:8]))
+			}
+		}
 		var txs []worldTx
 		if o.TxsAt != nil {
 			txs = o.TxsAt(w, w.n.Height+1)
